@@ -1455,7 +1455,7 @@ Proof.
     change (zskipn 0 b) with b in G. simpl Z.add in G.
     rewrite G.
     pose proof (window_glue b 0 4 (4 * Z.of_nat n) ltac:(lia) ltac:(lia) ltac:(lia)) as G2.
-    change (zskipn 0 b) with b in G2. simpl Z.add in G2. rewrite G2.
+    change (zskipn 0 b) with b in G2. change (0 + 4) with 4 in G2. rewrite G2.
     f_equal. lia.
 Qed.
 
